@@ -26,7 +26,7 @@ THEOREMS = ['Pycdlib.place_disjoint', 'Pycdlib.place_in_bounds', 'Pycdlib.place_
             'Pycdlib.dr_recalc_tie', 'Pycdlib.dr_recalc_init_tie',
             'Pycdlib.Iso.space_exact', 'Pycdlib.Iso.dirs_covered', 'Pycdlib.Iso.path_tables_exact', 'Pycdlib.Iso.layout_sound',
             'Pycdlib.Iso.step_inv', 'Pycdlib.Iso.invB_iff', 'Pycdlib.Iso.init0_inv', 'Pycdlib.dr_grow_tie', 'Pycdlib.dr_shrink_tie',
-            'Pycdlib.Iso.ceb_ok', 'Pycdlib.Iso.cebOkB_iff', 'Pycdlib.DirBytes.render_length', 'Pycdlib.DirBytes.reachable_dir_fills']
+            'Pycdlib.Iso.ceb_ok', 'Pycdlib.Iso.cebOkB_iff', 'Pycdlib.DirBytes.render_length', 'Pycdlib.DirBytes.reachable_dir_fills', 'Pycdlib.DirBytes.reachable_pt_fits']
 PARTIAL = {
     'space_exact_partial': 'Iso.space_exact proves declared size = from-scratch layout over EVERY history of the bookkeeping machine '
     '(directories of both hierarchies, path tables, contents with hard links, continuation blocks with the first-fit allocator that decides where an area lands and when a block is opened or given back, PVD copies, UDF directories '
